@@ -118,3 +118,181 @@ func ZZ_C16_Reader() {
 		}
 	}
 }
+
+// ZZ_C16_Bytes: whatever bytes a peer sends. The real Envelope.UnmarshalVT
+// (with the nested PID/Message decoders and skip) runs on a buffer of L <= N
+// symbolic bytes; if it accepts, the real streamReader.Receive runs on the
+// decoded envelope. Oracle: neither panics; a decoded envelope has no nil
+// table entries; whatever is delivered went to the target and with the type
+// that the message's own in-range indices name.
+func ZZ_C16_Bytes() {
+	N := zzrt.Param("N")
+	L := zzrt.Choose(N + 1)
+	if lmin := zzrt.Param("LMIN"); L < lmin {
+		zzrt.Assume(false)
+	}
+	data := zzrt.NondetBytes("wire", L)
+	env := &Envelope{}
+	var err error
+	escaped := false
+	func() {
+		defer func() {
+			if v := recover(); v != nil {
+				escaped = true
+			}
+		}()
+		err = env.UnmarshalVT(data)
+	}()
+	zzrt.Assert(!escaped, "C16:envelope-decoder-panics")
+	if err != nil {
+		zzrt.Reach("rejected")
+		return
+	}
+	zzrt.Reach("accepted")
+	for _, t := range env.Targets {
+		zzrt.Assert(t != nil, "C16:decoded-nil-target")
+	}
+	for _, s := range env.Senders {
+		zzrt.Assert(s != nil, "C16:decoded-nil-sender")
+	}
+	for _, m := range env.Messages {
+		zzrt.Assert(m != nil, "C16:decoded-nil-message")
+	}
+	if len(env.Messages) > 0 {
+		zzrt.Reach("accepted-with-message")
+	}
+
+	ze := actor.ZZNewEngine("node:1")
+	procs := []*actor.ZZRecProc{ze.Register("a"), ze.Register("")}
+	r := &streamReader{remote: &Remote{engine: ze.E}, deserializer: zzDeserB{calls: new(int)}}
+	func() {
+		defer func() {
+			if v := recover(); v != nil {
+				escaped = true
+			}
+		}()
+		r.Receive(&zzStream{envs: []*Envelope{env}})
+	}()
+	zzrt.Assert(!escaped, "C16:inbound-bytes-panic-reader")
+	nM, nTg, nT, nS := len(env.Messages), len(env.Targets), len(env.TypeNames), len(env.Senders)
+	for _, p := range procs {
+		for _, g := range p.Got {
+			pl, ok := g.Msg.(zzPayloadB)
+			zzrt.Assert(ok, "C16:delivered-something-not-decoded")
+			if !ok {
+				continue
+			}
+			// which message was it? the deserializer stub numbers its calls; the reader handles messages in order
+			zzrt.Assert(pl.call >= 0 && pl.call < nM, "C16:more-deliveries-than-messages")
+			if pl.call < 0 || pl.call >= nM {
+				continue
+			}
+			m := env.Messages[pl.call]
+			ti := int(m.TargetIndex)
+			zzrt.Assert(ti >= 0 && ti < nTg, "C16:delivered-with-invalid-target-index")
+			if ti >= 0 && ti < nTg {
+				zzrt.Assert(g.To == env.Targets[ti] && env.Targets[ti].ID == p.Pid.ID, "C16:delivered-to-unaddressed-actor")
+			}
+			ni := int(m.TypeNameIndex)
+			zzrt.Assert(ni >= 0 && ni < nT, "C16:delivered-with-invalid-type-index")
+			if ni >= 0 && ni < nT {
+				zzrt.Assert(pl.tname == env.TypeNames[ni], "C16:delivered-with-wrong-type")
+			}
+			si := int(m.SenderIndex)
+			if g.Sender != nil {
+				zzrt.Assert(si >= 0 && si < nS && g.Sender == env.Senders[si], "C16:delivered-with-unnamed-sender")
+			}
+			zzrt.Reach("delivered-from-bytes")
+		}
+	}
+}
+
+type zzPayloadB struct {
+	tname string
+	call  int
+}
+
+// zzDeserB: every call succeeds and is numbered (the reader decodes messages in order and stops at the first error).
+type zzDeserB struct{ calls *int }
+
+func (d zzDeserB) Deserialize(data []byte, tname string) (any, error) {
+	*d.calls++
+	return zzPayloadB{tname: tname, call: *d.calls - 1}, nil
+}
+
+// ZZ_C16_MsgBytes: a well-formed table prefix (produced by the real MarshalVT:
+// 1..2 type names, 2 targets, 0..1 sender) followed by one Messages field whose
+// K body bytes are symbolic - so multi-byte (also negative, 10-byte) index
+// varints, unknown fields and truncated bodies inside a message are reached at
+// a depth the whole-buffer harness cannot afford. Same oracle.
+func ZZ_C16_MsgBytes() {
+	K := zzrt.Choose(zzrt.Param("K") + 1)
+	if kmin := zzrt.Param("KMIN"); K < kmin {
+		zzrt.Assume(false)
+	}
+	pre := &Envelope{TypeNames: []string{"ty.A"}, Targets: []*actor.PID{actor.NewPID("node:1", "t/0"), actor.NewPID("node:1", "t/1")}}
+	if zzrt.Choose(2) == 1 {
+		pre.TypeNames = append(pre.TypeNames, "ty.B")
+		pre.Senders = []*actor.PID{actor.NewPID("node:2", "s/0")}
+	}
+	data, merr := pre.MarshalVT()
+	zzrt.Assert(merr == nil, "C16:harness-prefix-does-not-marshal")
+	data = append(data, 0x22, byte(K))
+	data = append(data, zzrt.NondetBytes("msg", K)...)
+
+	env := &Envelope{}
+	var err error
+	escaped := false
+	func() {
+		defer func() {
+			if v := recover(); v != nil {
+				escaped = true
+			}
+		}()
+		err = env.UnmarshalVT(data)
+	}()
+	zzrt.Assert(!escaped, "C16:envelope-decoder-panics")
+	if err != nil {
+		zzrt.Reach("rejected")
+		return
+	}
+	zzrt.Assert(len(env.Messages) == 1 && env.Messages[0] != nil, "C16:decoded-message-count")
+	zzrt.Assert(len(env.Targets) == 2 && len(env.TypeNames) == len(pre.TypeNames) && len(env.Senders) == len(pre.Senders), "C16:decoded-tables-differ-from-encoded")
+	m := env.Messages[0]
+	if m.TargetIndex < 0 || m.SenderIndex < -1 || m.TypeNameIndex < 0 {
+		zzrt.Reach("negative-index-decoded")
+	}
+
+	ze := actor.ZZNewEngine("node:1")
+	procs := []*actor.ZZRecProc{ze.Register("t/0"), ze.Register("t/1")}
+	r := &streamReader{remote: &Remote{engine: ze.E}, deserializer: zzDeserB{calls: new(int)}}
+	func() {
+		defer func() {
+			if v := recover(); v != nil {
+				escaped = true
+			}
+		}()
+		r.Receive(&zzStream{envs: []*Envelope{env}})
+	}()
+	zzrt.Assert(!escaped, "C16:inbound-bytes-panic-reader")
+	n := 0
+	for k, p := range procs {
+		for _, g := range p.Got {
+			n++
+			pl, ok := g.Msg.(zzPayloadB)
+			zzrt.Assert(ok && pl.call == 0, "C16:delivered-something-not-decoded")
+			ti := int(m.TargetIndex)
+			zzrt.Assert(ti == k, "C16:delivered-to-unaddressed-actor")
+			ni := int(m.TypeNameIndex)
+			zzrt.Assert(ni >= 0 && ni < len(env.TypeNames), "C16:delivered-with-invalid-type-index")
+			if ni >= 0 && ni < len(env.TypeNames) {
+				zzrt.Assert(pl.tname == env.TypeNames[ni], "C16:delivered-with-wrong-type")
+			}
+			if g.Sender != nil {
+				zzrt.Assert(m.SenderIndex == 0 && len(env.Senders) == 1 && g.Sender == env.Senders[0], "C16:delivered-with-unnamed-sender")
+			}
+			zzrt.Reach("delivered-from-bytes")
+		}
+	}
+	zzrt.Assert(n <= 1, "C16:message-delivered-twice")
+}
